@@ -27,6 +27,9 @@ def fixed(prop, id_, grep, what, witness):
     assert c, grep
     F.append(dict(property=prop, id=id_, status="fixed", commit=c, record="fixed: property=%s %s %s" % (prop, c, what), signature="any", witness=witness))
 
+open_("C07", "D67", "C07/attribution-invented-after-journal-loss", [],
+      "fault: a person's uncommitted lines of f.txt are on record (IDE-style human checkpoint); `.git/ai/working_logs/<HEAD>/checkpoints.jsonl` is deleted (likewise emptied, or the record's content snapshot under `blobs/` deleted or damaged by one byte); an agent then appends a line to f.txt and reports it; commit => the note credits the agent's session with the person's two lines as well. With the record gone git-ai diffs the agent's report against HEAD and has no way to know about the person's text: attribution is invented after a loss of private state (a journal that is merely cut in the middle of a record is noticed and nothing is attributed)",
+      "c07.journal_deleted_between_person_checkpoint_and_agent_report", ["corrupt_loses_person_checkpoint"], affects=[])
 # ---------------------------------------------------------------- C01
 open_("C01", "D17", "C01/missing-from-note@f.txt:4", ["C01/lost@f.txt:4"],
       "history: AI session adds 2 lines to f.txt, commit; a person re-indents the first of them (whitespace only), commit => the re-indented line is absent from the new commit's note and blame reports it human (whitespace-only edit of an AI line that an earlier commit already contains; same when the editor is an AI session or when only the final newline is added)",
@@ -154,6 +157,13 @@ open_("C02", "D58", "C03/unsound-note@a.txt:5", ["C03/unsound-blame@a.txt:5"],
       "recorded:witnesses/d58_c02_77_183.json", ["reset_over_removed_lines"])
 fixed("C02", "D64", "^fix: cherry-picked commits no longer get notes", "`git cherry-pick C1 C2` (C1: S1's line at the bottom of f.txt; C2: two lines at the top of f.txt and S1's three lines in g.txt) onto a branch that already has the two top lines, so that the shortcut declines: the full replay wrote, for the first new commit, a note that also listed g.txt lines 2-4 - lines that commit does not contain (a person's lines, or past the end of the file)", "c02.cherry_pick_range_first_commit_must_not_list_later_files")
 fixed("C02", "D66", "^fix: CI rebase merge pairs original and rebased", "a pull request of two commits (S1 adds three lines to f.txt; a person deletes lines of g.txt) rebase-merged on the server by plain git: `git-ai ci local merge` paired the original commits (rev-list order, newest first) with the rebased ones (oldest first), so the AI commit's new note was the human commit's empty one and S1's lines 2-4 were blamed on a person", "c02.ci_rebase_merge_of_ai_commit_followed_by_human_commit")
+fixed("C02", "D68", "^fix: stash pop keeps attribution that is already pending", "S1's lines in f.txt are stashed; S2 adds a line to g.txt and creates h.txt, only g.txt is committed (h.txt's two lines stay pending in INITIAL with S2's prompt record); `git stash pop` replaced INITIAL with the stash's attributions, so h.txt's lines were later committed as human (4 cells of the C02 table)", "c02.stash_pop_after_partial_commit_keeps_pending")
+open_("C02", "D69", "C02/lost@new.txt:1", ["C02/lost@new.txt:2"],
+      "history: an agent creates new.txt (two lines; the file is still untracked); `git branch other HEAD~1; git checkout -m other` (likewise `git switch -m`) carries the work tree to another commit; commit => the agent's lines are human: the -m path re-bases the attribution of tracked files only, and the working log of the commit that was left is deleted",
+      "c02.checkout_m_to_another_commit_carrying_a_new_agent_file", ["switch_m_untracked_new_file"])
+open_("C02", "D70", "C05/hash-without-prompt", [],
+      "history (recorded script witnesses/d70_c02_3_352.json, reduced by tools/ddmin.py): an agent creates new30_s1.txt (3 lines, untracked); a commit of nothing turns them into INITIAL-only pending claims; `git stash push` (no -u, so the file is not stashed) ; `git add -A; git commit` => the note lists the session's hash for new30_s1.txt without a prompt record: the stash hook removes the pending claims' prompt records together with the working-log entries of files it did not stash",
+      "recorded:witnesses/d70_c02_3_352.json", ["stash_with_untracked_initial_pending"])
 fixed("C02", "D54", "^fix: CI rebase-merge detection", "a pull request of two commits (the first adds two AI lines at the end of f.txt, the second deletes them again) squash-merged on the server onto a base branch with earlier commits: `git-ai ci local merge` (likewise the GitHub CI run) took the squash for a rebase merge because it walked two commits back from the squash commit into the base branch; the squash commit got the note of the last original commit only, listing lines 8-9 of a 5-line file, and the note of an older base-branch commit was overwritten", "c02.ci_squash_merge_of_two_commits_on_moved_base")
 
 open_("C18", "D49", "C18/alias-tokens-differ@trailing-backslash", [],
